@@ -6,6 +6,7 @@ import (
 	"sort"
 	"strings"
 	"testing"
+	"time"
 
 	"go.miragespace.co/specter/kv/memory"
 	"go.miragespace.co/specter/spec/chord"
@@ -313,6 +314,74 @@ func TestC26(t *testing.T) {
 		rec.Note("witness_release_with_failed_binding_delete", fmt.Sprintf("err=%v binding_left=%v registration_left=%v", err, len(left) > 0, stillReg))
 		if ev.Known("C26", sig) {
 			rec.Witnessed(sig, reproduced)
+		}
+	}
+
+	// scenario: a publish that takes long (slow DHT: each phase stays below its own time limit,
+	// the whole request takes about 3.5 s) overlaps a release of the same hostname by the same
+	// client, which is retried until it goes through. The two requests are serialised by the
+	// per-client lease; whichever order they take effect in, a route for the hostname may only
+	// remain if the hostname is still registered to the client.
+	{
+		fx.kv.MemoryKV = memory.WithHashFn(chord.Hash)
+		for _, s := range servers[:2] {
+			putDestination(fx.kv.MemoryKV, s.Chord, s.Tunnel)
+		}
+		c := allClients[0]
+		bg0 := context.Background()
+		ctx := c.delegationCtx(bg0, nil)
+		gen, gerr := fx.srv.GenerateHostname(ctx, &protocol.GenerateHostnameRequest{})
+		if gerr != nil {
+			t.Fatalf("set-up: GenerateHostname: %v", gerr)
+		}
+		host := gen.GetHostname()
+		fx.kv.setFault(func(op string, key []byte) error {
+			switch {
+			case op == "Get" && strings.HasPrefix(string(key), "/destination/"):
+				time.Sleep(1100 * time.Millisecond)
+			case op == "Put" && strings.HasPrefix(string(key), "/tunnel/bundle/"):
+				time.Sleep(2300 * time.Millisecond)
+			}
+			return nil
+		})
+		t0 := time.Now()
+		pubDone := make(chan error, 1)
+		go func() {
+			_, err := fx.srv.PublishTunnel(ctx, &protocol.PublishTunnelRequest{Hostname: host, Servers: []*protocol.Node{servers[0].Tunnel, servers[1].Tunnel}})
+			pubDone <- err
+		}()
+		time.Sleep(200 * time.Millisecond)
+		var relErr error
+		relAt, attempts := time.Duration(0), 0
+		for time.Since(t0) < 12*time.Second {
+			attempts++
+			if _, relErr = fx.srv.ReleaseTunnel(ctx, &protocol.ReleaseTunnelRequest{Hostname: host}); relErr == nil {
+				relAt = time.Since(t0)
+				break
+			}
+			time.Sleep(150 * time.Millisecond)
+		}
+		pubErr := <-pubDone
+		pubAt := time.Since(t0)
+		fx.kv.setFault(nil)
+		registered, _ := fx.kv.MemoryKV.PrefixContains(bg0, []byte(tun.ClientHostnamesPrefix(c.token())), []byte(host))
+		var left []string
+		for i := 1; i <= tun.NumRedundantLinks; i++ {
+			if v, _ := fx.kv.MemoryKV.Get(bg0, []byte(tun.RoutingKey(host, i))); len(v) > 0 {
+				left = append(left, tun.RoutingKey(host, i))
+			}
+		}
+		doc := map[string]any{"schedule": "client A owns a hostname; the DHT answers destination lookups after 1.1 s and route Puts after 2.3 s; PublishTunnel(A, hostname, 2 servers) starts at 0; ReleaseTunnel(A, hostname) is tried from 0.2 s on every 150 ms until it succeeds",
+			"publish_error": fmt.Sprint(pubErr), "publish_returned_after_ms": pubAt.Milliseconds(), "release_error": fmt.Sprint(relErr), "release_succeeded_after_ms": relAt.Milliseconds(), "release_attempts": attempts,
+			"registered_afterwards": registered, "routes_left": left}
+		switch {
+		case relErr != nil:
+			rec.Inconclusive("overlap-scenario-release-never-went-through")
+		case len(left) > 0 && !registered:
+			rec.Fail(t, "route-left-for-released-hostname-after-publish-overlapping-release", doc,
+				"ReleaseTunnel succeeded after %d ms (attempt %d) while a PublishTunnel of the same client and hostname was still running (it returned %v after %d ms): the hostname is no longer registered but routes %v remain", relAt.Milliseconds(), attempts, pubErr, pubAt.Milliseconds(), left)
+		default:
+			rec.Case(true, "scenario:publish-overlaps-release", func() any { return doc }, "scenario:publish-overlaps-release")
 		}
 	}
 
